@@ -49,4 +49,13 @@ CHECKS = {
         "note": TLCNOTE + "Hull exact on N<=16, rectangles on N<=8 (corners to 3/256 unit, metric to ~1%).",
         "technique": "TLA+ hull definition + monotone-chain reference machine (TLC exhaustive) + TLC trace validation of recorded hulls/rectangles",
     },
+    "C14": {
+        "text": "Measures.tla defines 2*Area (integer shoelace with the sign convention), integer-square-root bounds for Length and the "
+                "exact rational centroid of the highest-dimensional non-empty part; TLC validates every recorded Area / signed Area / "
+                "Area-with-transform / Length / Centroid of the real library against them, over every representation variant "
+                "(ring start, direction, hole and member order, ForceCW/CCW, Reverse, coordinate type) and exact-similarity images.",
+        "note": TLCNOTE + "Area exact, length to m/256, centroid to 2^-9 of the lattice unit on N<=16 (the property's 1e-9 relative "
+                "accuracy is not decidable with TLC integers).",
+        "technique": "TLA+ exact measures oracle (integer/rational arithmetic); TLC trace validation of recorded measures",
+    },
 }
